@@ -1,6 +1,16 @@
 """Level text / notes per property for MANIFEST.json."""
 KERNEL = "Lean 4.33 kernel + axioms {propext, Classical.choice, Quot.sound}; constants translator; correspondence harness/driver (differential testing, not proof); "
 TEXT = {
+    "C06": {
+        "level": "Kernel-checked theorems for every byte string and every segmentation: consumed counts stay inside the buffer (T1, no advance past the end), "
+                 "run [] chunks = decodeAll (flatten chunks) for all chunkings (T2), frames complete in the received prefix are emitted before the next read and "
+                 "nothing decodable is retained (T3), retained buffer < 4 + MAX_FRAME_SIZE at every read (T4), impossible length / oversize / bad protocol string "
+                 "are fatal as soon as the header is present and every stream ends with a terminal event (T5). Tied to Frame::parse, parse_frame and the real "
+                 "recv_frame loop (in-memory stream with exact cuts, all single cuts of short streams, and real loopback TCP).",
+        "note": KERNEL + "assumed: tokio read_buf cancel-safety/ordering; size of one OS read; the hook's in-memory branch of recv_frame mirrors the socket branch "
+                "(the socket branch is exercised separately over loopback TCP). Task termination on a fatal receive error (select! arm) is checked with the handler properties.",
+        "technique": "Lean 4 proof (prefix-stability lemmas + induction over read chunks; refinement to greedy decodeAll) + differential correspondence",
+    },
     "C07": {
         "level": "Kernel-checked theorems for all field values and all payloads: encode = BEP3 layout (T1), parse(encode m ++ rest) = (m, |encode m|) (T2), "
                  "be32 inverse (T3), bitfield round trip / byte count / bit position for every piece count (T4), id table (T5). The model is tied to the Rust "
